@@ -354,7 +354,12 @@ structure Row where
   note : Bytes
   deriving DecidableEq, Repr
 
-def Row.fields (r : Row) : List Bytes := r.label :: (r.values ++ [r.encoding, r.note])
+/-- the fields of one row as the reader sees them.  `joinAttributes` joins the value cells FIRST and then joins
+`[label, <joined values>, encoding, note]`: with at least one value that is `label, v₁, …, v_k, encoding, note`;
+with NO value the joined list is the empty string, which still takes a place: `label, , encoding, note` — four
+fields under the three headings of `deriveHeaders` (the engine's reader rejects that text: ErrFieldCount). -/
+def Row.fields (r : Row) : List Bytes :=
+  r.label :: ((if r.values.isEmpty then [[]] else r.values) ++ [r.encoding, r.note])
 
 /-- `deriveHeaders` -/
 def header (names : List Bytes) : List Bytes := sSolution :: (names ++ [sActions, sSummary])
@@ -389,13 +394,14 @@ def rowShapeOk (sc : Scenario) (names : List Bytes) (r : Row) : Bool :=
   canonicalEncoding sc.nActions r.encoding
 
 /-- **wellFormed**: a summary as the explorer writes it for the scenario `sc`:
+at least one decision variable (with none the writer's rows have one field more than its header, see `Row.fields`),
 one column per decision variable of the scenario (none of them called like the three fixed
 headings), first row `As-Is` carrying the scenario's as-is values and the empty action set, every
 other row another label, all labels distinct, every row with plain fields, numeric value cells, a
 label and a note that stay text, a label made of letters, digits, `_`, `-` (the engine's route), and
 the canonical encoding of some set of the scenario's actions. -/
 def wellFormed (sc : Scenario) (names : List Bytes) (rows : List Row) : Bool :=
-  names.length == sc.vars.length &&
+  !names.isEmpty && names.length == sc.vars.length &&
   names.all (fun n => plainField n && n != sSolution && n != sActions && n != sSummary) &&
   (match rows with
    | [] => false
@@ -414,5 +420,132 @@ def layoutOk (v : Variant) (names : List Bytes) : Bool := v.colsFromEnd || names
 /-- the hypothesis under which the loader's cast keeps every encoding of a solution row -/
 def encodingsReadBack (v : Variant) (rows : List Row) : Bool :=
   v.rawActions || rows.all (fun r => readsBack r.encoding)
+
+/-! ## 8. the engine across requests: table, solution pool, the served model's membership flag
+
+`Mux` keeps `solutionSetTable` (replaced by every accepted `POST /api/v1/solutions`), `solutionPool`
+(label ↦ solution; filled lazily by `GET /api/v1/solutions/<label>`; its own `As-Is` entry is built when the
+scenario is posted and never replaced) and the model served under `/api/v1/model` with its
+`ParetoFrontMember` attribute.  A `POST /api/v1/scenario` builds a new model and a NEW pool but leaves the table
+where it is (`rememberModelState`).  `Variant.poolReset` says whether an accepted summary empties the pool
+(`SolutionPool.RemoveSummarySolutions`, repair 8450521). -/
+
+/-- a pooled solution as `GET /api/v1/solutions/<label>` shows it -/
+structure Cached where
+  /-- the `Encoding` attribute -/
+  enc : Bytes
+  /-- the `Summary` attribute; the pool's own As-Is entry has none -/
+  note : Option Bytes
+  /-- the `ParetoFrontMember` attribute: `AddSolution` sets it, the As-Is entry has it false -/
+  member : Bool
+  /-- active flags of the solution's model (`none` = a panic on the way) -/
+  flags : Option (List Bool)
+  deriving DecidableEq, Repr
+
+structure Engine where
+  sc : Scenario
+  table : Option Table := none
+  pool : List (Bytes × Cached) := []
+  /-- `ParetoFrontMember` of the served model (absent until a table is loaded) -/
+  pfm : Option Bool := none
+  deriving Repr
+
+inductive Req where
+  | scenario (sc : Scenario)   -- an accepted `POST /api/v1/scenario`
+  | post (text : Bytes)        -- `POST /api/v1/solutions`
+  | get (label : Bytes)        -- `GET /api/v1/solutions/<label>`
+  | patch (encoding : Bytes)   -- `PATCH /api/v1/model` with an `Encoding` attribute, then the model's `ParetoFrontMember`
+  deriving Repr
+
+inductive Resp where
+  | ok                          -- 200 of a POST
+  | rejected (r : Reject)       -- 400 of `POST /api/v1/solutions`
+  | panic
+  | notFound                    -- 404
+  | found (c : Cached)          -- 200 of a GET
+  | patchRejected               -- 400 of the PATCH
+  | member (b : Option Bool)    -- the `ParetoFrontMember` attribute after an accepted PATCH (`none` = absent)
+  deriving DecidableEq, Repr
+
+/-- the pool's own As-Is entry (`assignAsIsSolutionFrom`) -/
+def asIsCached (sc : Scenario) : Cached :=
+  { enc := ofChars (BoolArchive.encode (List.replicate sc.nActions false)), note := none, member := false,
+    flags := some (List.replicate sc.nActions false) }
+
+/-- what `AddSolution` pools for a row's encoding and note -/
+def cachedOf (sc : Scenario) (encoding note : Bytes) : Cached :=
+  { enc := encoding, note := some note, member := true, flags := poolActive sc.nActions encoding }
+
+/-- `rememberModelState`: new model (as-is), new pool; the table stays; with a table present the new model's
+membership flag is derived against it -/
+def doScenario (e : Engine) (sc : Scenario) : Engine :=
+  { sc := sc, table := e.table, pool := [],
+    pfm := e.table.map (fun t => encodingPresent t (ofChars (BoolArchive.encode (List.replicate sc.nActions false)))) }
+
+def postResp : Post → Resp
+  | .ok _ => .ok
+  | .panic _ => .panic
+  | .rejected r => .rejected r
+
+/-- `v1PostSolutionsHandler` -/
+def doPost (v : Variant) (e : Engine) (text : Bytes) : Engine × Resp :=
+  match loadSummary v e.sc text with
+  | .ok t => ({ e with table := some t, pool := if v.poolReset then [] else e.pool }, .ok)
+  | r => (e, postResp r)
+
+/-- `HasSolution(label)`: a pooled label is answered from the pool, whatever the table says now -/
+def pooledOr (e : Engine) (label : Bytes) (miss : Engine × Resp) : Engine × Resp :=
+  match e.pool.find? (fun p => p.1 == label) with
+  | some (_, c) => (e, .found c)
+  | none => miss
+
+/-- `v1GetSolutionHandler`: no table → 404; label not routed / not in the table → 404; `As-Is` → the pool's own
+entry; a pooled label → the pooled solution; otherwise `getSolutionDetail` + `AddSolution` -/
+def doGet (v : Variant) (e : Engine) (label : Bytes) : Engine × Resp :=
+  match e.table with
+  | none => (e, .notFound)
+  | some t =>
+    match lookup v label t with
+    | .notFound => (e, .notFound)
+    | .asIs => (e, .found (asIsCached e.sc))
+    | .panic _ => pooledOr e label (e, .panic)
+    | .found enc n =>
+      pooledOr e label
+        (match poolActive e.sc.nActions enc with
+         | none => (e, .panic)
+         | some _ => ({ e with pool := (label, cachedOf e.sc enc n) :: e.pool }, .found (cachedOf e.sc enc n)))
+
+/-- `v1PatchModelHandler` with an `Encoding` attribute, followed by reading `ParetoFrontMember` off `GET /model` -/
+def doPatch (e : Engine) (enc : Bytes) : Engine × Resp :=
+  match e.table with
+  | none =>
+    match BoolArchive.decode e.sc.nActions (toChars enc) with
+    | .error _ => (e, .patchRejected)
+    | .ok _ => (e, .member e.pfm)
+  | some t =>
+    match paretoMember e.sc t enc with
+    | none => (e, .patchRejected)
+    | some b => ({ e with pfm := some b }, .member (some b))
+
+def step (v : Variant) (e : Engine) : Req → Engine × Resp
+  | .scenario sc => (doScenario e sc, .ok)
+  | .post text => doPost v e text
+  | .get label => doGet v e label
+  | .patch enc => doPatch e enc
+
+/-- the engine after a request sequence -/
+def exec (v : Variant) (e : Engine) (reqs : List Req) : Engine := reqs.foldl (fun e r => (step v e r).1) e
+
+/-- the request neither replaces the loaded summary nor the scenario when it meets the engine in state `e`:
+it is a GET, a PATCH, or a `POST /api/v1/solutions` the engine rejects -/
+def keeps (v : Variant) (e : Engine) : Req → Bool
+  | .scenario _ => false
+  | .post text => (match loadSummary v e.sc text with | .ok _ => false | _ => true)
+  | _ => true
+
+/-- every request of the sequence keeps the summary and the scenario -/
+def Quiet (v : Variant) : Engine → List Req → Prop
+  | _, [] => True
+  | e, r :: rs => keeps v e r = true ∧ Quiet v (step v e r).1 rs
 
 end Crem.EngineSummary
